@@ -91,16 +91,21 @@ fn roundtrip_one(col: &mut Collector, cx: &Ctx, e: &Entry, doc: &Doc, def: &Type
     let prop = &format!("{}{}", prop, tag);
     for inp in ALL_PROT {
         let bytes = rc::encode(inp.wire(), v);
-        for is_async in [false, true] {
+        // sync, async with everything delivered at once, async one byte per poll
+        for amode in [None, Some(Mode::All), Some(Mode::OneByte)] {
+            let is_async = amode.is_some();
             if is_async && (inp == Prot::Unsafe || check_size_only) {
                 continue;
             }
             col.evaluations += 1;
-            let dec = if is_async { Dec::Async(inp, Mode::All, std::ptr::null_mut()) } else { Dec::Sync(inp) };
+            let dec = match amode {
+                Some(mo) => Dec::Async(inp, mo, std::ptr::null_mut()),
+                None => Dec::Sync(inp),
+            };
             let guard = if inp == Prot::Unsafe { Some(&cx.arena) } else { None };
             let enc: &[Prot] = if is_async { &[Prot::Binary] } else { &ALL_PROT };
             let r: Resp = (e.ops.transcode)(&Req { bytes: &bytes, dec, enc, guard });
-            let how = format!("{}{}", if is_async { "async-" } else { "" }, inp.name());
+            let how = format!("{}{}", match amode { Some(Mode::OneByte) => "async1-", Some(_) => "async-", None => "" }, inp.name());
             let case = |x: Value| case_json(e, v, json!({"in": how, "more": x}));
             if r.dec != DecRes::Ok {
                 col.outcome("decode-fail");
